@@ -100,6 +100,12 @@ SHARING_INPUTS = [
 # number of compound expressions (a variable replaced by a variable), then
 # further rounds / sweeps follow
 DIRECTED = [
+    # inlining a nullary definition: the body object then also lives in a
+    # top-level command the step did not rewrite
+    ('(declare-const a Int)\n(declare-const b Int)\n'
+     '(define-fun f () Int (+ a b))\n(assert (> f 0))\n'
+     '(assert (< (* f 2) 9))\n(check-sat)\n',
+     {'mode': 'contains', 'markers': ['define-fun', '>', '*', '+']}),
     ('(declare-const x Int)\n(declare-const y Int)\n(assert (= x y))\n'
      '(assert (> (+ x 1) (* x 2)))\n(assert (< x 5))\n(check-sat)\n',
      {'mode': 'contains', 'markers': ['=', 'y', '*', '5']}),
